@@ -125,6 +125,8 @@ def suites(tier, rng, replay):
 
 
 def accept(rec):
+    if txflow.note_stale(rec):
+        return False
     if rec.get("checker") != "flow":
         return True
     code = (rec.get("expected") or [0])[0]
